@@ -17,9 +17,10 @@ def scenarios(r, n):
     out = []
     for _ in range(n):
         spec = drvgen.base_scenario(r, cheap_bias=0.85, constraint_p=0.2)
-        drvgen.history(r, spec)
+        drvgen.history(r, spec, ncalls=r.choice([1, 2, 2, 3]), criteria=0.2)
+        via = r.choice(["stepapi", "stepapi", "search"])     # both entry points are replayed on the driver model
         for c in spec["calls"]:
-            c["via"] = "stepapi"
+            c["via"] = via if not (c.get("max_score") is not None or c.get("max_time") is not None or c.get("early_stopping")) else "search"
             c["verbosity"] = False
         out.append(spec)
     return out
@@ -32,9 +33,11 @@ def paired_stepapi(r, n):
     for k in range(n):
         opt = classes[k % len(classes)]
         spec = drvgen.base_scenario(r, opt=opt, constraint_p=0.2)
-        drvgen.history(r, spec, ncalls=r.choice([1, 2]))
+        drvgen.history(r, spec, ncalls=r.choice([1, 2, 2, 3]))
         for c in spec["calls"]:
             c["verbosity"] = False
+        if len(spec["calls"]) > 1 and opt not in gen.SMBO:
+            spec["calls"][-1]["n_iter"] = max(spec["calls"][-1]["n_iter"], 12)     # later runs must reach the iteration phase
         a = copy.deepcopy(spec); b = copy.deepcopy(spec)
         for c in b["calls"]:
             c["via"] = "stepapi"
